@@ -126,6 +126,9 @@ def confirm(ctx, result, prop, monitors, theorem_names):
                         ctx.cov["unconfirmed_after_budget"] += 1
                         break
                     sig = f"{prop}:{mon.__name__}:{M.signature(case, complaint)}"
+                    mt = re.match(r"@([^@]+)@ (.*)", complaint, re.S)
+                    if mt:      # a complaint of a precisely known shape carries its own signature
+                        sig, complaint = mt.group(1), mt.group(2)
                     # a monitor complaint must reproduce as well (racy harness artefacts never count)
                     rc, _, case2, _ = replay_case(ctx, cid, case, "mon")
                     again = case2 is not None and any(True for _ in mon(case2))
